@@ -81,7 +81,10 @@ func (s *kState) FindView(h uint64, r uint32, reason string) (*tmconsensus.Versi
 		return nil, 0, ViewWrongCommit
 	}
 
-	if h < s.Committing.Height {
+	if h < s.Voting.Height {
+		// Below the voting height and not the committing height.
+		// This includes heights below the initial height
+		// when there is no committing view yet.
 		return nil, 0, ViewBeforeCommitting
 	}
 
